@@ -129,6 +129,15 @@ class IsotpDiscoverer(UDSDiscoveryScanner):
             logger.info(f"Testing ID {can_id_repr(ID)}")
             is_broadcast = False
 
+            # Frames which are already waiting in the receive queue (idle traffic
+            # received before the filter was set, late answers to previous probes)
+            # cannot be answers to this probe: drop them.
+            while True:
+                try:
+                    await transport.recvfrom(timeout=0.001)
+                except TimeoutError:
+                    break
+
             await transport.sendto(pdu, timeout=0.1, dst=dst_addr)
             try:
                 addr, payload = await transport.recvfrom(timeout=0.1)
